@@ -1,6 +1,9 @@
 package props
 
 import (
+	"io"
+	"github.com/sirupsen/logrus"
+	naslogger "free5gclib/nas/logger"
 	"bytes"
 	"fmt"
 
@@ -120,7 +123,7 @@ func runC07(ctx *Ctx) {
 	}
 	keys := keyAlphabet(nkeys)
 	r.Rule = fmt.Sprintf("full product: alg{NEA0,NEA1,NEA2,NIA1,NIA2} x len 1..%d x BEARER 0..31 x DIR 0..1 x COUNT %v x %d keys x %d data patterns (thorough: lengths>96 use bearers {0,1,31} and 6 keys), plus long lengths 2^k-1,2^k,2^k+1,2^k+3,2^k+4 for 2^k=1024..8192 (65536 in thorough) and every residue mod 16 above 1490..1553, 2040, 3000, 4090, 5000, 9000, 20000 (thorough: every length 1025..2300) x 2 directions x 2 COUNTs, and 2^20-1..2^20+33 (beyond 65536 cipher blocks), "+
-		"plus all operation sequences of depth 2 and 3 over 12 operations (result independent of earlier calls), plus 4x256 SNOW 3G table entries; oracle: independent refcrypto (ciphertext xor plaintext == reference keystream on every octet, MAC equality, twice = identity); "+
+		"plus lengths 1..96 with the security logger at trace level, plus all operation sequences of depth 2 and 3 over 12 operations (result independent of earlier calls), plus 4x256 SNOW 3G table entries; oracle: independent refcrypto (ciphertext xor plaintext == reference keystream on every octet, MAC equality, twice = identity); "+
 		"every case has a distinct parameter tuple by construction and all are non-trivial (each exercises the algorithm on non-empty data)", maxLen, counts, nkeys, len(pats))
 	r.Assume("refcrypto anchors: TS 35.207 set 1, RFC 4493, TS 33.401 C.1 EEA2 set 1, SNOW 3G set 1 keystream, UEA2 set 1; no published anchor for the GF(2^64) step of 128-EIA1 (reference written from TS 35.215 4.4 with a different multiplication algorithm)",
 		"key/COUNT values outside the alphabet are not enumerated; the algorithms have no key- or data-dependent branch except length handling")
@@ -234,6 +237,31 @@ func runC07(ctx *Ctx) {
 		r.Set("long_lengths", longLens)
 		r.Sample(c07op{1, keys[2], 0xff, 1, 0, 8, 2}.String())
 		r.Sample(c07op{11, keys[1], 0xffffffff, 31, 1, maxLen, 1}.String())
+	}
+
+	// the algorithms' results do not depend on how talkative the NAS security logger is: lengths 1..96 for every algorithm
+	// with the logger at trace level (output discarded, file hooks removed)
+	if inShard(3) {
+		lg := naslogger.SecurityLog.Logger
+		oldOut, oldLevel := lg.Out, lg.Level
+		lg.SetOutput(io.Discard)
+		oldHooks := lg.ReplaceHooks(make(logrus.LevelHooks))
+		lg.SetLevel(logrus.TraceLevel)
+		lv := r.Local()
+		for n := 1; n <= 96; n++ {
+			for _, a := range algs {
+				o := c07op{a, keys[1], 0x1234, 3, uint8(n & 1), n, 2}
+				out, key, detail := c07run(o)
+				lv.CaseN(true, report.H("trace"+out+fmt.Sprint(a, n)))
+				if key != "" {
+					viol(o, key+"/logger-at-trace-level", detail)
+				}
+			}
+		}
+		lv.Merge()
+		lg.SetLevel(oldLevel)
+		lg.ReplaceHooks(oldHooks)
+		lg.SetOutput(oldOut)
 	}
 
 	// Part 2: operation sequences (history independence). Sequential: the order is the point.
